@@ -35,6 +35,8 @@ type Opts struct {
 	RealSym bool
 	// Transport, when set, is the HTTPTransport plug-in (used by the driver's own URL fetch and by symbolz).
 	Transport http.RoundTripper
+	// RealWriter leaves the Writer plug-in unset: the driver's own writer creates the files commands name.
+	RealWriter bool
 	// ErrDelay makes UI.PrintErr slow (a terminal that blocks): widens windows around error reporting.
 	ErrDelay time.Duration
 }
@@ -307,6 +309,9 @@ func Run(o Opts) *Result {
 		Sym:     o.Sym,
 		Obj:     o.Obj,
 		UI:      &ui{o: &o, res: res, isTTY: o.Terminal},
+	}
+	if o.RealWriter {
+		po.Writer = nil
 	}
 	if po.Sym == nil && !o.RealSym {
 		po.Sym = noSym{}
